@@ -55,6 +55,29 @@ func compSpec() *field.Spec {
 	}
 }
 
+// bcompSpec: a composite that locates its subfields with its OWN bitmap (Pack builds and
+// resets that bitmap: a "read" that writes guarded state), mode "bcomposite"
+func bcompSpec() *field.Spec {
+	return &field.Spec{
+		Length: 99, Description: "bitmapped composite", Pref: prefix.ASCII.LL,
+		Bitmap: field.NewBitmap(&field.Spec{Length: 1, Description: "bitmap", Enc: encoding.BytesToASCIIHex, Pref: prefix.Hex.Fixed, DisableAutoExpand: true}),
+		Subfields: map[string]field.Field{
+			"1": field.NewString(&field.Spec{Length: 9, Description: "sub 1", Enc: encoding.ASCII, Pref: prefix.ASCII.LL}),
+			"2": field.NewString(&field.Spec{Length: 9, Description: "sub 2", Enc: encoding.ASCII, Pref: prefix.ASCII.LL}),
+			"7": field.NewString(&field.Spec{Length: 9, Description: "sub 7", Enc: encoding.ASCII, Pref: prefix.ASCII.LL}),
+		},
+	}
+}
+
+// bitmapped is set once, before any goroutine starts, for mode "bcomposite"
+var bitmapped bool
+
+type bcompData struct {
+	F1 string `index:"1"`
+	F2 string `index:"2"`
+	F7 string `index:"7"`
+}
+
 var msgSpec = &iso8583.MessageSpec{
 	Name: "racer",
 	Fields: map[int]field.Field{
@@ -209,8 +232,18 @@ func applyComposite(c *field.Composite, o Op) (out string) {
 		for len(q) < 2 {
 			q = append(q, "")
 		}
+		if bitmapped {
+			return errStr(c.Marshal(&bcompData{F1: q[0], F2: q[1], F7: q[0]}))
+		}
 		return errStr(c.Marshal(&compData{F1: q[0], F2: q[1]}))
 	case "Unmarshal":
+		if bitmapped {
+			d := &bcompData{}
+			if err := c.Unmarshal(d); err != nil {
+				return "err"
+			}
+			return fmt.Sprintf("ok %q %q %q", d.F1, d.F2, d.F7)
+		}
 		d := &compData{}
 		if err := c.Unmarshal(d); err != nil {
 			return "err"
@@ -258,6 +291,9 @@ type object struct {
 func newObject(mode string) *object {
 	if mode == "composite" {
 		return &object{c: field.NewComposite(compSpec())}
+	}
+	if mode == "bcomposite" {
+		return &object{c: field.NewComposite(bcompSpec())}
 	}
 	return &object{m: iso8583.NewMessage(msgSpec)}
 }
@@ -357,6 +393,35 @@ func genMessageOp(r *rng) Op {
 	}
 }
 
+// genBCompositeOp: the operations of the property on a bitmapped composite (wire form:
+// LL, two hex digits of bitmap, then the announced subfields as LL + text)
+func genBCompositeOp(r *rng) Op {
+	switch r.n(14) {
+	case 0, 1:
+		return Op{Kind: "Marshal", Val: r.pick("a,b", "x,", ",yy", "long,er")}
+	case 2:
+		return Op{Kind: "Unmarshal"}
+	case 3, 4, 5:
+		return Op{Kind: "Pack"}
+	case 6:
+		return Op{Kind: "Unpack", Val: r.pick("09C001a02bc", "058001z", "0200", "09")}
+	case 7:
+		return Op{Kind: "SetBytes", Val: r.pick("C001a02bc", "8001z", "0201q", "01")}
+	case 8:
+		return Op{Kind: "Bytes"}
+	case 9:
+		return Op{Kind: "MarshalJSON"}
+	case 10:
+		return Op{Kind: "UnmarshalJSON", Val: r.pick(`{"1":"j"}`, `{"2":"k","7":"l"}`, `{"5":"x"}`, `{`)}
+	case 11:
+		return Op{Kind: "GetSubfields"}
+	case 12:
+		return Op{Kind: "UnsetSubfield", Val: r.pick("1", "2", "7")}
+	default:
+		return Op{Kind: "UnsetSubfields", Val: r.pick("1", "7", "1 2", "2.1")}
+	}
+}
+
 func genCompositeOp(r *rng) Op {
 	switch r.n(14) {
 	case 0, 1:
@@ -398,6 +463,9 @@ func genHistory(mode string, seed uint64, idx int) history {
 	gen := genMessageOp
 	if mode == "composite" {
 		gen = genCompositeOp
+	}
+	if mode == "bcomposite" {
+		gen = genBCompositeOp
 	}
 	h := history{idx: idx, style: idx % 3}
 	for i := r.n(3); i > 0; i-- {
@@ -642,7 +710,7 @@ func raceDigest(prefix string, from, to int64) string {
 }
 
 func main() {
-	mode := flag.String("mode", "message", "message | composite")
+	mode := flag.String("mode", "message", "message | composite | bcomposite | atomic")
 	seed := flag.Uint64("seed", 1, "seed")
 	from := flag.Int("from", 0, "first history index")
 	n := flag.Int("n", 100, "number of histories")
@@ -655,6 +723,7 @@ func main() {
 		runAtomic(*n)
 		return
 	}
+	bitmapped = *mode == "bcomposite"
 	initSamples()
 	timeouts := 0
 	for i := *from; i < *from+*n; i++ {
